@@ -416,6 +416,11 @@ theorem canonPtrs_congr (f : Nat) (ps qs : List Val) (hl : ps.length = qs.length
             have := h (i + 1) (by simp; omega) (by simp; omega) out pw
             simp only [List.getElem_cons_succ] at this; exact this) o (pw + 1)
 
+/-- equal values are null together: the step that makes equal pointer sections truncate to the same length -/
+theorem isNullV_of_eq (f : Nat) (x y : Val) (h : eq f x y = true) : isNullV x = isNullV y := by
+  have hk := eq_kind f x y h
+  cases x <;> cases y <;> simp_all [kind, isNullV]
+
 -- non-vacuity
 example : canon (.struct [] [.cap 3]) = none := by simp [canon, canonPtr, truncData, truncPtrs, isNullV, canonPtrs]
 
